@@ -41,9 +41,14 @@ where
     }
 }
 
-fn dec_float<F: Float>(d: &Value) -> F {
+/// bounds: (MIN, MAX) of the integer type as f64, for the named floats just outside / on the edge of its range
+fn dec_float<F: Float>(d: &Value, bounds: (f64, f64)) -> F {
     let name = d.get("name").and_then(|n| n.as_str()).unwrap_or("");
     let v: f64 = match (d["c"].as_str().unwrap_or(""), name) {
+        (_, "maxp1") => bounds.1 + 1.0,
+        (_, "maxp1h") => bounds.1 + 1.5,
+        (_, "minm1") => bounds.0 - 1.0,
+        (_, "minmh") => bounds.0 - 0.5,
         ("nan", _) => f64::NAN,
         ("pinf", _) => f64::INFINITY,
         ("ninf", _) => f64::NEG_INFINITY,
@@ -72,9 +77,9 @@ where
             };
             Val::Int(I::from(n).expect("catalogue integer must fit the width"))
         }
-        "float" => Val::Float(dec_float(d)),
+        "float" => Val::Float(dec_float(d, (I::min_value().to_f64().unwrap(), I::max_value().to_f64().unwrap()))),
         "bool" => Val::Bool(d["v"].as_bool().unwrap()),
-        "array" => Val::Array(d["v"].as_array().unwrap().iter().map(|x| dec_float(x)).collect()),
+        "array" => Val::Array(d["v"].as_array().unwrap().iter().map(|x| dec_float(x, (0.0, 0.0))).collect()),
         "none" => Val::None,
         _ => Val::Error(exmex::ExError::new("catalogue error value")),
     }
